@@ -205,7 +205,13 @@ static std::string (*g_crash_writer)(const char* why) = nullptr;
 static void crash_report(const char* why)
 {
     if (!g_crash_writer)
-        _exit(3);
+    {
+        // before any concurrent execution (cross-instance warm-up / sequential set-up): a sequential
+        // memory-safety failure, which is C08's verdict
+        static const char m[] = "\nCRASH {\"clause\":\"fatal failure before any concurrent execution (sequential set-up)\",\"replay\":\"\",\"races\":0,\"sequential\":1}\n";
+        (void)!write(1, m, sizeof m - 1);
+        _exit(1);
+    }
     std::string p = g_crash_writer(why);
     char        b[1200];
     int         n = snprintf(b, sizeof b, "\nCRASH {\"clause\":\"%s\",\"replay\":\"%s\",\"races\":%d}\n", why, p.c_str(), (int)g_races);
